@@ -4,6 +4,7 @@ import (
 	"flag"
 	"fmt"
 	"sort"
+	"strconv"
 	"strings"
 
 	"github.com/EliCDavis/jbtf"
@@ -298,6 +299,32 @@ func (i *Instance) EncodeToAppSchema(appSchema *schema.App, encoder *jbtf.Encode
 	appSchema.Metadata = i.metadata.Data()
 }
 
+// splitDependencyName splits the name of an array input ("Values.10") into
+// the input's name and the element's index. Regular inputs have index -1
+func splitDependencyName(name string) (string, int) {
+	if dot := strings.LastIndex(name, "."); dot != -1 {
+		if index, err := strconv.Atoi(name[dot+1:]); err == nil {
+			return name[:dot], index
+		}
+	}
+	return name, -1
+}
+
+// dependencyNameLess orders dependencies by input name, and the elements of
+// an array input by their numeric index ("Values.2" before "Values.10"):
+// loading a graph appends array elements in the order they're listed
+func dependencyNameLess(a, b string) bool {
+	aName, aIndex := splitDependencyName(a)
+	bName, bIndex := splitDependencyName(b)
+	if aLower, bLower := strings.ToLower(aName), strings.ToLower(bName); aLower != bLower {
+		return aLower < bLower
+	}
+	if aIndex != bIndex {
+		return aIndex < bIndex
+	}
+	return a < b
+}
+
 func (i *Instance) buildNodeGraphInstanceSchema(node nodes.Node, encoder *jbtf.Encoder) schema.AppNodeInstance {
 
 	nodeInstance := schema.AppNodeInstance{
@@ -314,7 +341,7 @@ func (i *Instance) buildNodeGraphInstanceSchema(node nodes.Node, encoder *jbtf.E
 	}
 
 	sort.Slice(nodeInstance.Dependencies, func(i, j int) bool {
-		return strings.ToLower(nodeInstance.Dependencies[i].Name) < strings.ToLower(nodeInstance.Dependencies[j].Name)
+		return dependencyNameLess(nodeInstance.Dependencies[i].Name, nodeInstance.Dependencies[j].Name)
 	})
 
 	if param, ok := node.(CustomGraphSerialization); ok {
